@@ -36,7 +36,7 @@ def mandatory_bins(tier):
     b = ["L%d" % L for L in range(254)]
     b += ["crc_lo_%02x" % v for v in range(256)] + ["crc_hi_%02x" % v for v in range(256)]
     b += ["crc_lo_00_solved", "crc_hi_00_solved", "crc_both_00_solved", "trailing_zero_payload", "key_ends_00",
-          "wrong_key", "wrong_marker", "wrong_crc", "custkey_pos_first", "custkey_pos_last", "custkey_mismatch",
+          "wrong_key", "wrong_marker", "wrong_crc", "custkey_pos_first", "custkey_pos_last", "custkey_mismatch", "custkey_pattern_before_slot",
           "security_code", "security_code_all_zero", "model_frame_accepted", "same_object_reuse"]
     return b
 
@@ -271,6 +271,32 @@ def run_shard(spec, ctx):
                     if quick and pn == "mid" and tag != "random":
                         continue
                     check_case(ns, ctx, "cust", key, payload, ck=ck, pos=pos, nwrong=1, tamper=(tag == "random"))
+    # customer key whose byte pattern also occurs in the payload BEFORE its slot (quoted key, periodic keys)
+    if spec["res"] in (0, 5, 11):
+        for L in (24, 40, 64, 100, 253):
+            for kind in ("quoted", "uniform", "periodic", "overlap"):
+                for pos in sorted({10, 12, L - 10, max(10, L // 2)}):
+                    if pos + 10 > L or pos < 10:
+                        continue
+                    if kind == "quoted":
+                        ck = rng.randbytes(10)
+                        payload = bytearray(rng.randbytes(L))
+                        payload[pos - 10 : pos] = ck
+                    elif kind == "uniform":
+                        ck = bytes([0xAA] * 10)
+                        payload = bytearray(rng.randbytes(L))
+                        payload[pos - 10 : pos] = ck
+                    elif kind == "periodic":
+                        ck = bytes([0x12, 0x34] * 5)
+                        payload = bytearray(rng.randbytes(L))
+                        payload[pos - 4 : pos] = ck[:4]
+                    else:
+                        ck = rng.randbytes(10)
+                        payload = bytearray(rng.randbytes(L))
+                        payload[pos - 3 : pos] = ck[:3]
+                        payload[0:10] = ck
+                    ctx.bin("custkey_pattern_before_slot")
+                    check_case(ns, ctx, "cust", rng.randbytes(16), bytes(payload), ck=ck, pos=pos, nwrong=1, tamper=False)
     # lengths outside the stated range: recorded, never judged
     if spec["res"] == 0:
         for L in (254, 255):
